@@ -7,10 +7,18 @@ From HT Require Import Base.Prelude Num.Arith Amm.Formulas.
 
 Record verdict := V { v_agree : bool; v_prop : bool; v_known : bool; v_nontriv : bool }.
 
+(* agreement on failures: a Rust panic and a generic StdError are the same observable outcome (the call aborts and
+   the transaction reverts), so a rewrite that turns one into the other is not a disagreement; the contracts' own
+   typed errors stay distinct *)
+Definition abort_eqb (e1 e2 : err) : bool :=
+  match e1, e2 with
+  | Panic, EStd | EStd, Panic => true
+  | _, _ => err_eqb e1 e2
+  end.
 Definition res_eqb {A} (eqb : A -> A -> bool) (r1 r2 : res A) : bool :=
   match r1, r2 with
   | Ok a, Ok b => eqb a b
-  | Err e1, Err e2 => err_eqb e1 e2
+  | Err e1, Err e2 => abort_eqb e1 e2
   | _, _ => false
   end.
 Definition n3_eqb (p q : N * N * N) : bool :=
@@ -171,7 +179,7 @@ Definition chk_C15_slippage tol d0 d1 p0 p1 (out : res unit) : verdict :=
 
 Definition c10_ok (bp ms : option N) (offer ret spread od rd : N) (out : res unit) : bool :=
   match normalise_decimals offer ret spread od rd with
-  | Err e => match out with Err e' => err_eqb e e' | Ok _ => false end
+  | Err e => match out with Err e' => abort_eqb e e' | Ok _ => false end
   | Ok (o, r, s) =>
       match ms, bp with
       | None, _ => is_ok out
@@ -400,6 +408,7 @@ Definition chk_C02_hist := chk_hist mon_C02.
 Definition chk_C03_hist := chk_hist mon_C03.
 Definition chk_C04_hist := chk_hist mon_C04.
 Definition chk_C05_hist := chk_hist mon_C05.
+Definition chk_C06_hist := chk_hist mon_C06.
 Definition chk_C07_hist := chk_hist mon_C07.
 Definition chk_C09_hist := chk_hist mon_C09.
 Definition chk_C10_hist := chk_hist mon_C10.
